@@ -19,7 +19,7 @@ SHARDS = {"quick": 14, "thorough": 16}
 METHODS = ["lsq_poly", "spline", "lagrange", "krogh", "pchip", "akima", "hermite"]
 RULE = ("seven methods x admissible orders (spline 2-5, node-based >= 2, least squares 1-5, all below the number of volumes), 4-12 "
         "volumes, tables: power law / polynomial in ln V / generic smooth positive, 1-4 q-points, 3-9 modes, probe volumes inside and "
-        "beyond the sampled range (ratio 1.2-1.4), kept away from nodes; non-trivial = non-power-law table, or a probe outside the "
+        "beyond the sampled range (ratio 1.2-1.4), kept away from nodes; (plot) least squares of order 1-3 on tables of that degree, every n and q-point; non-trivial = non-power-law table, or a probe outside the "
         "sampled range, or an index (q,m) != (0,.); distinct by the drawn case")
 ASSUMPTIONS = [
     "central differences of the returned functions at two step sizes (1e-4, 2e-4 in ln V): tolerance 4*|difference| + 1e-6*scale",
@@ -307,7 +307,9 @@ def plot_oracle(ctx, s, case=None):
 @st.composite
 def plot_cases(draw):
     s = draw(dataset_specs(max_nq=3, max_na=2, max_nt=1, interpolators=["lsq_poly"], families=("poly2", "poly3")))
-    s["order"] = 3
+    # also the smallest admissible order: an interpolant linear in ln V, whose third quantity is identically zero
+    s["order"] = draw(st.sampled_from([1, 2, 3, 3]))
+    s["family"] = draw(st.sampled_from(["power", "poly2", "poly3"][:s["order"]]))
     if s["nv"] < 5:
         s["nv"] = 5
     return s
@@ -319,7 +321,7 @@ def sub_plot(ctx):
         if ok is None:
             ctx.stats.skip("unusable-dataset")
             return
-        ctx.case(s, True, classes=["plot"])
+        ctx.case(s, True, classes=["plot", "plot-order-%d" % s["order"], "plot-family-" + s["family"]])
 
     ctx.run_given(body, plot_cases(), max_examples=ctx.n(28, 600), shrink=not ctx.quick)
 
